@@ -174,6 +174,9 @@ func (c *trCtx) writerSynth(x *ast.CallExpr) *ast.CallExpr {
 
 // sprintf: the text that fmt formats for the constant format string x.Args[at] and the operands after it
 func (c *trCtx) sprintf(x *ast.CallExpr, at int) string {
+	if s, ok := c.floatSprintf(x, at); ok {
+		return s // a verb f (trans_units_tablerender.go)
+	}
 	tv := c.info().Types[x.Args[at]]
 	if tv.Value == nil {
 		trFail(x.Pos(), "a non-constant format string is outside the subset")
@@ -991,6 +994,9 @@ func (t *trTranslator) writerMoveOf(f *trFunc) *trWriterMove {
 			return nil
 		}
 		field := t.movedField(t.funcs[fo.Origin()])
+		if field == "" {
+			field = trCsvMovedField(fo) // csv.NewWriter(w) (trans_units_tablerender.go)
+		}
 		lid, ok := as.Lhs[0].(*ast.Ident)
 		if field == "" || !ok {
 			return nil
@@ -1018,6 +1024,9 @@ func (t *trTranslator) writerMoveOf(f *trFunc) *trWriterMove {
 
 // mutName: the current value of a parameter that is written through (the moved writer lives in a field of a local)
 func (c *trCtx) mutName(m types.Object) string {
+	if s, ok := c.csvDropped(m); ok {
+		return s // the sink of a csv.Writer that is dropped (trans_units_tablerender.go)
+	}
 	if mv := c.writerMove; mv != nil && mv.param == m {
 		if n, ok := c.names[mv.local]; ok {
 			return n + "." + trMangle(mv.field)
